@@ -173,12 +173,25 @@ def overlay_read_delegation(facts, rep, w, rule="R04.4o"):
             continue
         cases = ov.inter.ret_cases(b)
         ok = bool(cases)
+        # (`let m = resolved.metadata()?; Ok(m)` hands the answer on — unless the value is edited in between: any write through a
+        # field projection in the operation's own code means it is not the layer's answer any more)
+        cb_ = ov.inter.code_body(b)
+        edited = any(st.kind == "assign" and not st.lhs.is_local() and st.lhs.fields()
+                     for blk in cb_.blocks if not blk.cleanup for st in blk.stmts)
         for ct, _, bb in cases:
             c = norm(ct)
             if ov.inter.case_polarity(ct) == "err":
                 continue
             t = peel(passthrough_of(c))
-            good = t[0] == "call" and sname(t[1]) == op and t[2] and ov.is_resolved(t[2][0]) and ov.mentions_path_arg(t[2][0])
+            if passthrough_of(c) != c and edited:
+                ok = False
+                continue
+            # the receiver is what the overlay's resolver returned for this path (not a layer picked in the operation itself)
+            recv_resolver = bool(t[0] == "call" and t[2]) and any(
+                x[0] == "call" and isinstance(x[1], str) and ov.inter.body_of_call(x) is not None and
+                ov.inter.body_of_call(x).id in {h.id for h in ov.helpers.values() if ov._is_resolver(h)}
+                for x in walk(t[2][0]))
+            good = t[0] == "call" and sname(t[1]) == op and t[2] and ov.is_resolved(t[2][0]) and ov.mentions_path_arg(t[2][0]) and recv_resolver
             ok = ok and good
         n += 1
         rep.ob(rule, b.id, "%s returns resolver(path).%s() unchanged" % (op, op), ok, "" if ok else
